@@ -233,10 +233,47 @@ func init() {
 					}
 				}
 			}
+			underFmt := func(p []string) bool { return indexOf(p, "{fmt}") >= 0 }
+			// variables whose values are blank or carry blanks: list items are trimmed after expansion and dropped when nothing is left
+			blankEnvs := []map[string]string{{"V": " "}, {"V": " val "}, {"V": "\t\n"}, {"V": "val\n"}}
+			for _, lf := range leaves {
+				if lf.Kind != "strlist" {
+					continue
+				}
+				for _, v := range []string{"${V}", " ${V} ", "pre-$V-post"} {
+					for _, e := range blankEnvs {
+						if !yield(C16Case{Part: "expand", Path: lf.Path, Kind: lf.Kind, Value: v, Env: e}) {
+							return
+						}
+					}
+				}
+			}
+			// the override block of every format is expanded like the base settings (deb is the default instantiation above)
+			for _, f := range Formats[1:] {
+				for _, lf := range leaves {
+					if !underFmt(lf.Path) {
+						continue
+					}
+					switch lf.Kind {
+					case "string", "strptr", "strlist", "strmap":
+						for _, v := range []string{"${V}", "  padded  ", "  $E  "} {
+							if !yield(C16Case{Part: "expand", Path: lf.Path, Kind: lf.Kind, Value: v, Env: map[string]string{"V": "val"}, Fmt: f}) {
+								return
+							}
+						}
+					}
+				}
+				for _, ex := range []string{"true", "false", "absent"} {
+					for _, v := range c16Values {
+						if !yield(C16Case{Part: "contents-expand", Path: []string{"overrides", "{fmt}", "contents"}, Value: v, Expand: ex, Env: map[string]string{"V": "val"}, Fmt: f}) {
+							return
+						}
+					}
+				}
+			}
 			if !env.Thorough() {
 				return
 			}
-			underFmt := func(p []string) bool { return indexOf(p, "{fmt}") >= 0 }
 			for _, f := range Formats[1:] { // deb is the default instantiation above
 				for _, lv := range levels {
 					if !underFmt(lv.Path) {
